@@ -370,18 +370,13 @@ Proof.
       destruct Hms as [lb [Hlb [Hlc Hlq]]]. apply bind_ok in Hrest. destruct Hrest as [dfss [Hdfss Hrest]].
       simpl in Hrest. inversion Hrest; subst dfs. exists lb, ms, dfss. repeat split; try assumption.
       apply mapM_ok in Hdfss. eapply forall2_impl; [|exact Hdfss]. intros mref d Hd. apply manifest_step_ok; assumption.
-    + (* no current snapshot: second refresh *)
-      apply bind_ok in H. destruct H as [r1 [Hr1 H]]. apply resolve_ok in Hr1. destruct Hr1 as [_ [Hres1 _]].
-      destruct (Hres1 mk Hrs) as [_ [b' [md' [Hb' [Hp' ->]]]]].
-      rewrite Hb in Hb'. inversion Hb'; subst b'. rewrite Hp in Hp'. inversion Hp'; subst md'.
+    + (* no current snapshot: emptiness decided on the same metadata *)
       destruct (mcur md) as [id|] eqn:Hcur.
       * destruct (id =? -1) eqn:Hid; simpl in H; [|discriminate]. inversion H. apply Z.eqb_eq in Hid. subst. auto.
       * simpl in H. inversion H. auto.
   - (* nothing resolves: the model follows the code and reports no files *)
     assert (Hn : served_meta E st = None) by (unfold served_meta; rewrite Hrs; reflexivity).
-    rewrite Hspec, Hn in H.
-    apply bind_ok in H. destruct H as [r1 [Hr1 H]]. apply resolve_ok in Hr1. destruct Hr1 as [Hspec1 _].
-    rewrite Hspec1, Hn in H. simpl in H. inversion H. reflexivity.
+    rewrite Hspec, Hn in H. simpl in H. inversion H. reflexivity.
 Qed.
 
 (* ---------------------------------------------------------------- data files *)
@@ -889,8 +884,7 @@ Proof.
   intro E. unfold get_all_data_files.
   apply (local_bind _ _ (fun st => resolve E st 0)
     (fun r0 st => match (match r0 with Some md => find_snap md | None => None end) with
-       | None => r1 <- resolve E st 1 ;;
-                 match r1 with
+       | None => match r0 with
                  | Some md => match mcur md with Some id => if id =? -1 then ret [] else fail EInconsistent | None => ret [] end
                  | None => ret [] end
        | Some s => ex <- st_exists st (slist s) (OpExists, 0%nat) ;;
@@ -912,11 +906,7 @@ Proof.
     apply (local_bind _ _ (fun st => mapM (manifest_step E st) ms) (fun dfss _ => ret (dedupe (List.concat dfss)))).
     + apply (local_mapM _ _ (fun mref st => manifest_step E st mref)). intro x. apply local_manifest_step.
     + intro dfss. apply local_const.
-  - apply (local_bind _ _ (fun st => resolve E st 1)
-      (fun r1 _ => match r1 with
-                 | Some md => match mcur md with Some id => if id =? -1 then ret [] else fail EInconsistent | None => ret [] end
-                 | None => ret [] end)); [apply local_resolve|].
-    intro r1. apply local_const.
+  - apply local_const.
 Qed.
 
 Lemma local_read_data : forall E v df, local (fun st => read_data E st v df).
@@ -1081,8 +1071,7 @@ Proof.
     { apply mapM_complete. apply all_some_inv in Hall. eapply forall2_impl; [|exact Hall].
       intros x y Hxy. apply manifest_step_complete; assumption. }
     rewrite (bind_fst_ok _ _ _ _ _ Hmm). reflexivity.
-  - intro Hc. rewrite (bind_fst_ok _ _ _ _ _ (resolve_complete E st 1 md Hn Hm)).
-    destruct Hc as [-> | ->]; reflexivity.
+  - intro Hc. destruct Hc as [-> | ->]; reflexivity.
 Qed.
 
 Definition sums_ok (E : env) (st : store) (dfs : list dfile) : Prop :=
